@@ -15,6 +15,11 @@ from . import c10_gen as S
 from .c09 import check_attributes
 
 
+PROBE_SEED = 424242      # the probe family does not depend on the run seed or the tier: its violation keys are stable
+PROBE_COUNT = 30
+PROBE_SIZE = 10
+
+
 # ------------------------------------------------------------------------------------------------
 # HTML
 
@@ -287,15 +292,23 @@ def run(tier, seed):
     c.done()
     out.append(c)
 
-    nu = ncss // 2
-    c = Clause('css-section-unterminated', 'B',
-               generator='as css-actions, but the last declaration of a rule body may be terminated by the end of the body instead of `;` '
-                         '(features "UV")',
-               bound='%d trees of <= %d nodes; every position; get_css_section without and with properties' % (nu, size),
-               rule='a case is one generated stylesheet; distinct by (seed, index, size)', exhaustive=False)
-    run_parallel(c, 'bounded.c17', 'check_css_random', ((seed, i, size, 'UV', 'section') for i in range(nu)), chunk=max(1, nu // 56))
-    c.done()
-    out.append(c)
+    # Declarations terminated by the end of the body: the unchanged tree is known to contradict the statement here
+    # (notes/C17.md, defect U).  A small probe family with a fixed seed first (same cases in every tier and for every
+    # run seed, all violations recorded); the large random family only if the probe passes.
+    def unterminated(name, count, sz, sd, extra):
+        c = Clause(name, 'B',
+                   generator='as css-actions, but the last declaration of a rule body may be terminated by the end of the body instead '
+                             'of `;` (features "UV"), seed %d%s' % (sd, extra),
+                   bound='%d trees of <= %d nodes; every position; get_css_section without and with properties' % (count, sz),
+                   rule='a case is one generated stylesheet; distinct by (seed, index, size)', exhaustive=False)
+        run_parallel(c, 'bounded.c17', 'check_css_random', ((sd, i, sz, 'UV', 'section') for i in range(count)), chunk=max(1, count // 56))
+        c.done()
+        out.append(c)
+        return c
+
+    probe = unterminated('css-section-unterminated-probe', PROBE_COUNT, PROBE_SIZE, PROBE_SEED, ' [fixed probe family]')
+    if not probe.violations:
+        unterminated('css-section-unterminated', ncss // 2, size, seed, '')
 
     nh, nc = (3, 3) if quick else (4, 4)
     c = Clause('html-actions-tiny-exhaustive', 'B', generator='the tiny document family of C09 (bounded/c09_gen.py: tiny_forests), both leaf sets',
